@@ -12,14 +12,17 @@ import (
 	"sort"
 	"strings"
 	"sync"
+	"sync/atomic"
 	"testing"
 	"time"
 
+	getty "github.com/apache/dubbo-getty"
 	"pgregory.net/rapid"
 
 	seatasql "seata.apache.org/seata-go/pkg/datasource/sql"
 	"seata.apache.org/seata-go/pkg/datasource/sql/datasource"
 	"seata.apache.org/seata-go/pkg/protocol/branch"
+	"seata.apache.org/seata-go/pkg/remoting/loadbalance"
 	"seata.apache.org/seata-go/pkg/rm/tcc"
 	"seata.apache.org/seata-go/pkg/tm"
 
@@ -39,7 +42,7 @@ type Tx struct {
 	Via      string `json:"via"`  // db | conn
 	Rows     []int  `json:"rows"` // rows updated (ids 1..8; sorted, so that workers cannot deadlock each other)
 	Insert   bool   `json:"insert"`
-	Decision string `json:"decision"` // commit | rollback
+	Decision string `json:"decision"`            // commit | rollback
 	FailStmt bool   `json:"fail_stmt,omitempty"` // the last statement fails (duplicate key): the branch ends in phase one, phase two finds nothing
 }
 
@@ -407,8 +410,108 @@ func TestPropConcurrentWorkload(t *testing.T) {
 	})
 }
 
+// ---- concurrent use of the session registry and the load balancers ---------------------------
+
+type lbSession struct {
+	getty.Session
+	addr   string
+	closed int32
+}
+
+func (s *lbSession) IsClosed() bool     { return atomic.LoadInt32(&s.closed) == 1 }
+func (s *lbSession) RemoteAddr() string { return s.addr }
+func (s *lbSession) Close()             { atomic.StoreInt32(&s.closed, 1) }
+func (s *lbSession) Stat() string       { return "lb[" + s.addr + "]" }
+
+type lbCase struct {
+	Kind      string `json:"kind"` // selection
+	Selectors int    `json:"selectors"`
+	Each      int    `json:"each"`
+	Policy    string `json:"policy"`
+	Churn     int    `json:"churn"` // open/close/remove steps of the churn goroutine
+}
+
+// runSelection: several goroutines select sessions (as every request does) while sessions are opened,
+// closed and removed (as reconnection does). Judged by the race detector, panics and termination.
+func runSelection(c lbCase) *pt.Failure {
+	return pt.Guard("C20/crash", func() *pt.Failure {
+		loadbalance.ResetConsistentHashForVerif()
+		m := &sync.Map{}
+		addrs := []string{"10.0.0.1:8091", "10.0.0.2:8091", "10.0.0.3:8091", "10.0.0.4:8091"}
+		var all []*lbSession
+		for _, a := range addrs {
+			s := &lbSession{addr: a}
+			all = append(all, s)
+			m.Store(getty.Session(s), true)
+		}
+		var wg sync.WaitGroup
+		var panicked atomic.Value
+		guard := func(f func()) {
+			defer wg.Done()
+			defer func() {
+				if p := recover(); p != nil {
+					panicked.Store(fmt.Sprint(p))
+				}
+			}()
+			f()
+		}
+		wg.Add(1)
+		go guard(func() {
+			for i := 0; i < c.Churn; i++ {
+				s := all[i%len(all)]
+				switch i % 3 {
+				case 0:
+					s.Close()
+				case 1:
+					m.Delete(getty.Session(s))
+				default:
+					n := &lbSession{addr: s.addr}
+					all[i%len(all)] = n
+					m.Store(getty.Session(n), true)
+				}
+				runtime.Gosched()
+			}
+		})
+		for g := 0; g < c.Selectors; g++ {
+			wg.Add(1)
+			g := g
+			go guard(func() {
+				for i := 0; i < c.Each; i++ {
+					_ = loadbalance.Select(c.Policy, m, fmt.Sprintf("10.0.0.%d:8091:%d", 1+(g+i)%4, 1000+g*100+i))
+				}
+			})
+		}
+		done := make(chan struct{})
+		go func() { wg.Wait(); close(done) }()
+		select {
+		case <-done:
+		case <-time.After(20 * time.Second):
+			return pt.Failf("C20/selection/lock-up/"+c.Policy, "concurrent selection did not terminate")
+		}
+		if p := panicked.Load(); p != nil {
+			return pt.Failf("C20/selection/panic/"+c.Policy, "%v", p)
+		}
+		return nil
+	})
+}
+
+func TestPropConcurrentSelection(t *testing.T) {
+	ctx.Check(t, func(rt *rapid.T) {
+		c := lbCase{Kind: "selection", Selectors: rapid.IntRange(2, 6).Draw(rt, "selectors"), Each: rapid.IntRange(20, 200).Draw(rt, "each"),
+			Policy: rapid.SampledFrom([]string{"ConsistentHashLoadBalance", "ConsistentHashLoadBalance", "RoundRobinLoadBalance", "LeastActiveLoadBalance", "XID", "RandomLoadBalance"}).Draw(rt, "policy"),
+			Churn:  rapid.IntRange(5, 200).Draw(rt, "churn")}
+		fl := runSelection(c)
+		ctx.Rec.Case("selection", true, fmt.Sprintf("selection|%s|%d|%d|%d", c.Policy, c.Selectors, c.Each/50, c.Churn/50), c, "policy:"+c.Policy)
+		ctx.Judge(rt, "selection", fl, c)
+	})
+}
+
 func TestPropReplaySaved(t *testing.T) {
 	ctx.ReplayAll(t, func(v *stats.Violation) *pt.Failure {
+		var l lbCase
+		if err := json.Unmarshal(v.Case, &l); err == nil && l.Kind == "selection" {
+			return runSelection(l)
+		}
 		var c Case
 		if err := json.Unmarshal(v.Case, &c); err != nil {
 			return pt.Failf("C20/replay", "bad case: %v", err)
